@@ -39,7 +39,7 @@ func readAccount(w http.ResponseWriter, r *http.Request) {
 		case postgres.IsNotFoundError(err):
 			api.NotFound(w, err)
 		default:
-			common.HandleCommonErrors(w, r, err)
+			common.HandleCommonPaginationErrors(w, r, err)
 		}
 		return
 	}
